@@ -27,6 +27,14 @@ def T(s):
     return T0 + datetime.timedelta(microseconds=UNIT_US * s)
 
 
+def TZ(s, jid):
+    """the instant of a job as its owner wrote it: the same instant, in the owner's time zone (every third job is given
+    in a zone west or east of UTC: "at 16:00 New York")"""
+    dt = T(s)
+    off = [0, -300, 0, 330, 0, 60][jid % 6]
+    return dt.astimezone(datetime.timezone(datetime.timedelta(minutes=off))) if off else dt
+
+
 def S(dt):
     us = (dt - T0) // datetime.timedelta(microseconds=1)
     return us // UNIT_US if us % UNIT_US == 0 else us / UNIT_US
@@ -78,7 +86,7 @@ async def _run(sc):
                 srcs[f[1]].push((Batch if (sized and f[1] % 2 == 0) else Ev)(T(f[2]), f[3]))
                 log.append(("eff", "push", f[1], f[2], f[3], now()))
             else:
-                d.schedule(T(f[1]), make_job(f[2], f[1]))
+                d.schedule(TZ(f[1], f[2]), make_job(f[2], f[1]))
                 log.append(("eff", "sched", f[1], f[2], now()))
 
     def make_job(jid, when):
@@ -208,9 +216,9 @@ async def _run(sc):
             key = int(lead) if lead is not None else j
             if key not in twin_objs:
                 twin_objs[key] = TwinJob([key] + [int(k) for k, v in twins.items() if int(v) == key], w)
-            d.schedule(T(w), twin_objs[key].run)
+            d.schedule(TZ(w, key), twin_objs[key].run)
         else:
-            d.schedule(T(w), make_job(j, w))
+            d.schedule(TZ(w, j), make_job(j, w))
     lg = logging.getLogger("basana")
     old = lg.level
     lg.setLevel(logging.CRITICAL + 1)
